@@ -30,9 +30,9 @@ m = {
     "setup_cmd": "./setup.sh",
     "hooks": {
         "guard": "verif",
-        "enable": "go build -tags verif (the harness modules under /verif/go replace k8s.io/gengo and k8s.io/gengo/v2 with /repo and /repo/v2)",
+        "enable": "go build -tags verif (adds generator/verif_hooks.go and v2/generator/verif_hooks.go, which export executeBody; the harness modules under /verif/go replace k8s.io/gengo and k8s.io/gengo/v2 with /repo and /repo/v2)",
         "baseline_off_cmd": "for m in . v2; do (cd /repo/$m && GOFLAGS=-mod=mod GOPROXY=off go test -vet=off -count=1 ./...) || exit 1; done",
-        "source_commits": [],
+        "source_commits": ["0f73dbd"],
         "add_only": True,
     },
     "engines": [{
